@@ -116,8 +116,22 @@ def run_case(kind, params):
             tr = np.full((nmax, 2, 3), np.nan, dtype=np.float32)
             th = np.full((nmax, 4), np.nan, dtype=np.float32)
             shared = (tc[:, :, 1], tr[:, :, 2], th[:, 1], th[:, 3])
+        fbufs_ = {shape: frame_buf}
+        scene_ = None
+        if params.get("same_scene"):
+            # one scene, seen through frames of odd width 2k + 1 (columns 0 .. 2k) and of even width 2k (columns 1 .. 2k): the same
+            # disks at the same distance from the respective map centre
+            wmax_ = max(s_[1] for s_ in params["shapes"]) + 1
+            scene_ = impl.noise_frame(rng, (shape[0], wmax_), "disks")
         for callno, (fk, peaks) in enumerate(zip(params["frame_kinds"], params["peaks"])):
-            frame = impl.noise_frame(rng, shape, fk)
+            shape_i = tuple(params["shapes"][callno]) if params.get("shapes") else shape
+            if scene_ is not None:
+                off_ = 1 if shape_i[1] % 2 == 0 else 0
+                frame = np.ascontiguousarray(scene_[:, off_:off_ + shape_i[1]])
+                peaks = (np.asarray(peaks) - np.array([0, off_])).tolist()
+            else:
+                frame = impl.noise_frame(rng, shape_i, fk)
+            frame_buf = fbufs_.setdefault(shape_i, np.zeros(shape_i, np.float32))
             peaks = np.asarray(peaks, dtype=np.int64)
             n = len(peaks)
             outs = tuple(a[:n] for a in shared)
@@ -353,6 +367,28 @@ def search(ctx, boost=1, focus=()):
             p["peaks"].append(p["peaks"][-1])
             p["frame_kinds"].append("poisson")
         p["upsamples"] = [[10, 4, 7, True, 5, 3][(k + j) % 6] for j in range(len(p["peaks"]))]
+        iso.append(p)
+    # ... and earlier calls on frames one pixel wider / narrower (same height) with the SAME upsampling factor, full-frame pipeline:
+    # the half-spectra of widths 2k and 2k + 1 have the same shape
+    for k in range(2 * boost):
+        p = gen_history(rng, 4 * k + 2)
+        p["pipeline"] = "full"
+        while len(p["peaks"]) < 3:
+            p["peaks"].append(p["peaks"][-1])
+            p["frame_kinds"].append("disks")
+        h_, w_ = p["shape"]
+        w_ = max(w_, 12)
+        wn_ = w_ + 1 if w_ % 2 == 0 else w_ - 1
+        p["shape"] = [h_, w_]
+        ncall = len(p["peaks"])
+        p["shapes"] = [[h_, wn_]] * (ncall - 1) + [[h_, w_]]      # (the neighbour first: whatever is kept is kept from the first call)
+        p["frame_kinds"] = ["disks"] * ncall
+        p["peaks"] = [p["peaks"][-1]] * ncall            # the same positions in every call (same offsets from the map centre)
+        p["upsamples"] = [[20, 10][k % 2]] * ncall
+        p["same_scene"] = True
+        c_ = int(np.ceil(p["pattern"]["search"]))
+        p["peaks"] = [[[int(rng.integers(c_, max(c_ + 1, h_ - c_))), int(rng.integers(c_ + 1, max(c_ + 2, min(w_, wn_) - c_)))]
+                       for _ in range(4)]] * ncall
         iso.append(p)
     try:
         res = _common.run_in_mode(PROP, {}, [("isolated", p) for p in iso])
